@@ -69,6 +69,17 @@ fn main() {
         std::env::set_var("TZ", HARNESS_TZ);
     }
     install_panic_hook();
+    // variant and worker processes must not outlive the process that started them (it may leave
+    // through a watchdog): ask the kernel for SIGKILL when the parent dies
+    if variant_name().is_some() || args.get(3).map(|s| s.as_str()) == Some("--worker") {
+        extern "C" {
+            fn prctl(option: i32, arg2: u64, arg3: u64, arg4: u64, arg5: u64) -> i32;
+        }
+        // SAFETY: PR_SET_PDEATHSIG (1) with SIGKILL (9)
+        unsafe {
+            prctl(1, 9, 0, 0, 0);
+        }
+    }
     clock::self_test();
     let Some((prop, run, replay)) = table().into_iter().find(|(p, _, _)| *p == args[1]) else {
         crate::core::elog!("MACHINERY: unknown property {}", args[1]);
